@@ -34,3 +34,11 @@ package polynomial
 //@ fieldorder PowerBasis
 //@   property C08
 //
+
+// A decoder stores what it decodes in the caller's object (C08; finding F41): see /verif/cmd/lvc/fieldordercheck.go
+//@ decodes PowerBasis.ReadFrom
+//@   property C08
+//
+//@ decodes PowerBasis.UnmarshalBinary
+//@   property C08
+//
